@@ -777,6 +777,12 @@ class _Exporter:
                 return f"{__}{name} = np.random.rand({shape}).astype(np.float32)"
             if value.data_type == TensorProto.INT8:
                 return f"{__}{name} = np.random.randint(-128, 127, size=({shape},), dtype=np.int8)"
+            np_dtype = onnx.helper.tensor_dtype_to_np_dtype(value.data_type)  # noqa: TID251
+            np_name = np_dtype.type.__name__
+            if np_dtype.kind == "f" and hasattr(np, np_name):  # FLOAT16, DOUBLE
+                return f"{__}{name} = np.random.rand({shape}).astype(np.{np_name})"
+            if np_dtype.kind in "iub":  # integer types, BOOL
+                return f"{__}{name} = np.random.randint(0, 2, size=({shape},)).astype(np.{np_name})"
             raise NotImplementedError(
                 f"Unable to generate random initializer for data type {value.data_type}."
             )
